@@ -1,6 +1,7 @@
 import Mp4ff.Model.SampleTables
 import Mp4ff.Lemmas.C09A
 import Mp4ff.Lemmas.C09B
+import Mp4ff.Expect.Transcribed
 /-!
 # C09 — sample-table queries agree with the ISO 14496-12 table semantics
 Property theorems (specification definitions and proofs in `Mp4ff/Lemmas/C09A.lean`, `C09B.lean`): every query
@@ -106,5 +107,10 @@ example : RawOK [(1, 3, 1), (3, 2, 1), (4, 5, 2), (6, 1, 1)] := by
 example : (⟨[3, 2, 1], [10, 14, 5]⟩ : Stts).OK := by
   refine ⟨rfl, ?_⟩
   decide
+
+/-- the Go functions the models of this property transcribe (committed table `spec/transcribed.json`, checked against
+    the current source by the extractor on every run) all still exist -/
+theorem model_sources_exist :
+    (["SampleTables.lean"] : List String).all Mp4ff.Expect.presentFor = true := by decide +kernel
 
 end Mp4ff.Stbl.C09
